@@ -51,6 +51,7 @@ func checkC25(c *core.Ctx) {
 	// "fails with insufficient funds iff applying the postings in order would overdraw": the VM's
 	// running balance must see every debit and credit, self-postings included (shared with C06)
 	ruleVMBalanceTracking(c)
+	ruleRuntimeResultUnfiltered(c)
 }
 
 // loopVarSel matches `<v>.<field>` for the given loop variable object.
